@@ -344,6 +344,7 @@ func runC01(c *Ctx) {
 	c.compareBatch(cases)
 	c.c01ColAttrs()
 	c.c01RowHeights()
+	c.c01Formulas()
 	c.R.Notes = append(c.R.Notes, fmt.Sprintf("+colattrs %.1fs", time.Since(t0).Seconds()))
 	c.c01Payloads()
 	c.R.Notes = append(c.R.Notes, fmt.Sprintf("+payloads %.1fs", time.Since(t0).Seconds()))
@@ -361,6 +362,8 @@ func replayC01(c *Ctx, f Failure) {
 	c.compareBatch(cases)
 	if len(hs) == 0 {
 		c.c01ColAttrs()
+		c.c01RowHeights()
+		c.c01Formulas()
 		c.c01Payloads()
 		c.c01Fixtures()
 	}
@@ -459,5 +462,85 @@ func (c *Ctx) c01RowHeights() {
 				}
 			}
 		}
+	}
+}
+
+// formula kinds across save+open: shared formula groups (master + derived cells), array formulas, formulas holding
+// XML specials, quotes, line breaks and leading spaces; what GetCellFormula and GetCellType report for every cell of
+// the area before saving, after save+open and after a second cycle
+func (c *Ctx) c01Formulas() {
+	const sh = "Sheet1"
+	shared, array := excelize.STCellFormulaTypeShared, excelize.STCellFormulaTypeArray
+	type fs struct {
+		Cell    string `json:"cell"`
+		Formula string `json:"formula"`
+		Type    string `json:"type,omitempty"`
+		Ref     string `json:"ref,omitempty"`
+	}
+	sets := [][]fs{
+		{{"C1", "A1+B1", shared, "C1:C5"}},
+		{{"C1", "A1+$B$1", shared, "C1:E1"}},
+		{{"C2", "SUM(A2:B2)", shared, "C2:D4"}, {"F1", "A1*2", shared, "F1:F3"}},
+		{{"E1", "A1:A3*2", array, "E1:E3"}},
+		{{"E1", "SUM(A1:A3*B1:B3)", array, "E1"}},
+		{{"C1", "IF(A1<B1,\"<&>\",\"a\"\"b\")", "", ""}, {"C2", " A1+1", "", ""}, {"C3", "A1+\n1", "", ""}, {"C4", "A1&\"'\"&B1", "", ""}},
+		{{"C1", "A1+B1", shared, "C1:C5"}, {"C3", "A3*10", "", ""}},
+		{{"C1", "A1+B1", shared, "C1:C5"}, {"C1", "", "", ""}},
+	}
+	obs := func(f *excelize.File) string {
+		var sb strings.Builder
+		for r := 1; r <= 6; r++ {
+			for col := 3; col <= 6; col++ {
+				n, _ := excelize.CoordinatesToCellName(col, r)
+				fm, _ := f.GetCellFormula(sh, n)
+				t, _ := f.GetCellType(sh, n)
+				fmt.Fprintf(&sb, "%s=%q/%d ", n, fm, cellTypeCode[t])
+			}
+		}
+		return sb.String()
+	}
+	for _, set := range sets {
+		desc := map[string]interface{}{"formulas": set}
+		c.guard("C01_no_panic", desc, func() {
+			f := excelize.NewFile()
+			defer f.Close()
+			for r := 1; r <= 5; r++ {
+				f.SetCellValue(sh, "A"+strconv.Itoa(r), r)
+				f.SetCellValue(sh, "B"+strconv.Itoa(r), r*10)
+			}
+			for _, x := range set {
+				var err error
+				if x.Type != "" {
+					t, ref := x.Type, x.Ref
+					err = f.SetCellFormula(sh, x.Cell, x.Formula, excelize.FormulaOpts{Type: &t, Ref: &ref})
+				} else {
+					err = f.SetCellFormula(sh, x.Cell, x.Formula)
+				}
+				if err != nil {
+					return
+				}
+			}
+			c.Count("formula-kinds", true, fmt.Sprint(set))
+			o0 := obs(f)
+			g, err := reopen(f)
+			if err != nil {
+				c.Fail("oracle", "C01_roundtrip", desc, "save/open failed: "+err.Error(), "")
+				return
+			}
+			defer g.Close()
+			if o1 := obs(g); o1 != o0 {
+				c.Fail("oracle", "C01_roundtrip", desc, "formulas changed by save+open: "+firstDiff(o0, o1), "")
+				return
+			}
+			g2, err := reopen(g)
+			if err != nil {
+				c.Fail("oracle", "C01_roundtrip", desc, "second save/open failed: "+err.Error(), "")
+				return
+			}
+			defer g2.Close()
+			if o2 := obs(g2); o2 != o0 {
+				c.Fail("oracle", "C01_fixpoint", desc, "formulas changed by the second save+open: "+firstDiff(o0, o2), "")
+			}
+		})
 	}
 }
